@@ -161,7 +161,6 @@ _reg(UTIL, "u_str_len", U + "str_len", "number of bytes before the terminator")
 _reg(UTIL, "u_pass_sv", U + "pass_sv", "the lexeme itself")
 _reg(UTIL, "u_first_sv_char", U + "first_sv_char", "the first byte of the lexeme")
 _reg(UTIL, "u_find_char", U + "find_char", "position of c in the terminated string, not counting the terminator; else 'not found'")
-_reg(UTIL, "u_str_equal", U + "str_equal", "both null or byte-wise equal up to and including the terminator")
 _reg(UTIL, "opt_set_skip_whitespace", "ctpg::parse_options::set_skip_whitespace", "stores the flag, returns the options")
 _reg(UTIL, "opt_set_skip_newline", "ctpg::parse_options::set_skip_newline", "stores the flag, returns the options")
 _reg(UTIL, "opt_set_verbose", "ctpg::parse_options::set_verbose", "stores the flag, returns the options")
